@@ -6,9 +6,11 @@ props = [json.loads(l) for l in open(os.path.join(HERE, "properties.jsonl"))]
 ids = [p["id"] for p in props]
 
 TB = ("Trusted: Lean 4.33 kernel; axioms propext/Classical.choice/Quot.sound only (audited by #print axioms on every run, no sorry/"
-      "native_decide/own axioms); the Lean specs as the reading of the property; harness/translate.py (tables regenerated from /repo); "
-      "the hand-written models are tied to the code by differential correspondence (sampling, bounded-exhaustive for the constraint "
-      "algebra), not by proof. ")
+      "native_decide/own axioms); the Lean specs as the reading of the property; harness/translate.py (tables regenerated from /repo) and "
+      "harness/translate_layerb.py (the functions of the constraint algebra translated statement by statement into Lean on every run; the "
+      "agreement theorems Vers/Gen*Thm prove each equal to the model function, an obligation of the thorough tier, recorded in the quick "
+      "tier: DESIGN §20); the other hand-written models are tied to the code by differential correspondence (sampling, bounded-exhaustive "
+      "for the constraint algebra), not by proof. ")
 
 def P(text, note, design, technique, level="proof"):
     return dict(level=level, text=text, note=TB + note, design=design, technique=technique)
@@ -40,7 +42,7 @@ CLAIMED = {
  "C04": P("Lean 4 theorems over a model of contains_version / VersionRange.__contains__ that mirrors the Python branch for branch: for every "
           "well-formed version-sorted constraint list of any length over any scheme whose operators are lawful, and every version, the model "
           "returns exactly the interval-set meaning `denote`, never raises, and depends only on the comparisons with the constraint versions; "
-          "range level through the sorting theorems. '!='-only ranges were broken on the unchanged tree (F01, repaired).",
+          "range level through the sorting theorems. '!='-only ranges were broken on the unchanged tree (F01, repaired). FUNCTION TIE: contains_version and VersionRange.__contains__ are translated from the Python source on every run and proved equal to the model function (contains_version_eq, range_contains_eq).",
           "Correspondence bounded-exhaustive over comparator patterns up to length 4 quick / 5 thorough x every probe position on real versions "
           "of all 17 version classes; lawfulness of the scheme's operators is C02's business and is assumed here.",
           "§7 C04", "Lean 4 proof (induction over the bound list) + model/implementation correspondence"),
@@ -60,20 +62,20 @@ CLAIMED = {
           "§7 C06", "Lean 4 proof on the AST fragment + correspondence + native-matcher oracle on the real code"),
  "C07": P("Lean 4 theorems over a model of VersionConstraint.validate / validate_comparators: for EVERY finite list of constraints (any order, "
           "duplicates, stars) over a scheme with lawful operators, the model returns True exactly when the list is well-formed (WF) and raises "
-          "ValueError otherwise; every accepted list can be tested for membership without error (via C04). F02 repaired.",
+          "ValueError otherwise; every accepted list can be tested for membership without error (via C04). F02 repaired. FUNCTION TIE: validate_comparators and VersionConstraint.validate are translated from the Python source on every run and proved equal to the model function (validate_comparators_eq, con_validate_eq).",
           "Correspondence exhaustive over comparator patterns up to length 4 quick / 5 thorough, with duplicates and stars; set() membership modelled by ==.",
           "§7 C07", "Lean 4 proof (sorted-permutation uniqueness, rule equivalence) + correspondence"),
  "C08": P("Lean 4 theorem simplify_spec over a model of VersionConstraint.simplify: for EVERY version-sorted list with pairwise distinct versions "
           "(any comparator pattern, any length, any lawful scheme, any hash seed) the result is a sub-list of the input, has the same redundant-range "
           "meaning denoteR for every version, is accepted by validation and is a fixed point; exact duplicates disappear. The unfixed index walk "
-          "violated all clauses (F04, repaired).",
+          "violated all clauses (F04, repaired). FUNCTION TIE: deduplicate, simplify_constraints (with its while loop) and VersionConstraint.simplify are translated from the Python source on every run and proved equal to the model function (deduplicate_eq, simplify_constraints_eq, con_simplify_eq).",
           "Correspondence exhaustive over comparator patterns up to length 4 quick / 5 thorough (+duplicates) on every scheme, the four clauses "
           "evaluated through the Lean spec whenever model and code differ.",
           "§7 C08", "Lean 4 proof (contextual-equivalence invariant of the stack walk) + correspondence"),
  "C09": P("Lean 4 theorems over a model of VersionRange.invert / VersionConstraint.invert: the INVERTED_COMPARATORS tables regenerated from /repo "
           "are proved to map every comparator to its logical complement; for every non-empty well-formed version-sorted range without vacuous "
           "constraints the inverse is well-formed, contains a version exactly when the original does not, and inverting again returns the original; "
-          "a single constraint's inverse flips membership; '*' has no inverse.",
+          "a single constraint's inverse flips membership; '*' has no inverse. FUNCTION TIE: VersionConstraint.is_star/invert and VersionRange.is_star/invert are translated from the Python source on every run and proved equal to the model function (con_invert_eq, range_invert_eq).",
           "Correspondence exhaustive over comparator patterns up to length 4 quick / 5 thorough on every scheme. The empty range is excluded (theorem).",
           "§7 C09", "Lean 4 proof (first-cut-above characterisation of interval unions) + decide over regenerated tables + correspondence"),
  "C10": P("Lean 4 theorems over a model of VersionRange.normalize / from_versions (sorted(known) with the real '<', membership of each with the real "
@@ -82,7 +84,7 @@ CLAIMED = {
           "it is empty exactly when no known version is a member, it contains a known version exactly when the original does, every bound is a known "
           "member, the blocks are strictly increasing and separated by a known non-member (maximal runs), two ranges agreeing on the known versions "
           "give the same result, and two lists with the same elements give the same comparators on equal versions (uniqueness of the canonical block "
-          "list); from_versions contains exactly the versions equal to a listed one.",
+          "list); from_versions contains exactly the versions equal to a listed one. FUNCTION TIE: VersionRange.normalize, from_versions and __contains__ are translated from the Python source on every run and proved equal to the model function (range_normalize_eq, range_from_versions_eq).",
           "The model takes constructed versions (text-to-version is C11/C16); version_class(str) of the known versions is outside the theorem and "
           "covered by the correspondence.",
           "§7 C10", "Lean 4 proof (block-builder invariant, canonical block list uniqueness) + correspondence on ranks for every scheme"),
